@@ -295,6 +295,12 @@ def execute(prop, tier, seed, P, replay=None, clear=True):
                "checked_components": checked, "bad_steps": len(bad), "deviations_used": {k: v["n"] for k, v in devs.items()},
                "binding_selftest": st_res,
                "checker_cmd": "tlc CoreMC.tla (INVARIANTS InvTypeOK InvOneBinding InvWellFormed InvNoDangling, PROPERTY StepProperty); tlc CoreTrace.tla (monitor)"}
+        if P.get("approval_disconnect"):
+            import approval
+            ar = approval.execute(prop, tier, seed, sc, topo, disconnect=True)
+            viol += ar["viol"]
+            cov["pending_approval_teardown"] = ar["cov"]
+            cov["traces_validated_against_impl"] += ar["cov"]["schedules"]
         if P.get("race"):
             import races
             rr = races.execute(prop, tier, sc, topo)
